@@ -647,4 +647,84 @@ theorem callRows_times (st : EcuState) (cs : List Call) (hc : ∀ c ∈ cs, c.se
       · simp at hr
     · exact ih _ (fun c' h' => hc c' (by simp [h'])) r hr t ht
 
+/-! ### the single-producer system is the one-task instance -/
+
+/-- the several-producer state that corresponds to a single-producer state (between two of its choices the only task is
+    idle and the mutex is free) -/
+structure Sim (s : Sys) (m : MSys) : Prop where
+  writer : m.toWriter = s.toWriter
+  ecu : m.ecu = s.ecu
+  clock : m.clock = s.clock
+  task : ∃ td, m.tasks = [⟨td, .idle, s.stopped⟩] ∧ (s.stopped = false → td = s.todo)
+  holder : m.holder = none
+  waiters : m.waiters = []
+  calls : m.calls.map (·.ex) = s.done
+
+theorem Sim.init (h : List Exchange) : Sim (Sys.init h) (MSys.init [h]) :=
+  ⟨rfl, rfl, rfl, ⟨h, rfl, fun _ => rfl⟩, rfl, rfl, rfl⟩
+
+theorem mexec_append (m : MSys) (a b : List MChoice) : mexec m (a ++ b) = mexec (mexec m a) b := by
+  simp [mexec, List.foldl_append]
+
+theorem Sim.step {s : Sys} {m : MSys} (h : Sim s m) (c : Choice) : Sim (step s c) (mexec m (embedChoice s c)) := by
+  obtain ⟨hw, he, hc, ⟨td, ht, htd⟩, hh, hwt, hcalls⟩ := h
+  obtain ⟨mw, mecu, mclock, mtasks, mholder, mwaiters, mwire, mcalls⟩ := m
+  simp only at hw he hc ht hh hwt hcalls
+  subst hw he hc ht hh hwt
+  cases c with
+  | get => exact ⟨rfl, rfl, rfl, ⟨td, rfl, htd⟩, rfl, rfl, hcalls⟩
+  | commit => exact ⟨rfl, rfl, rfl, ⟨td, rfl, htd⟩, rfl, rfl, hcalls⟩
+  | retry => exact ⟨rfl, rfl, rfl, ⟨td, rfl, htd⟩, rfl, rfl, hcalls⟩
+  | commitFail => exact ⟨rfl, rfl, rfl, ⟨td, rfl, htd⟩, rfl, rfl, hcalls⟩
+  | cancel =>
+    cases hs : s.stopped with
+    | true =>
+      refine ⟨?_, ?_, ?_, ⟨td, ?_, ?_⟩, ?_, ?_, ?_⟩ <;>
+        simp [embedChoice, mexec, mstep, DbLog.step, hs, setTask, hcalls]
+    | false =>
+      refine ⟨?_, ?_, ?_, ⟨[], ?_, ?_⟩, ?_, ?_, ?_⟩ <;>
+        simp [embedChoice, mexec, mstep, DbLog.step, hs, setTask, hcalls]
+  | prod =>
+    cases hs : s.stopped with
+    | true =>
+      refine ⟨?_, ?_, ?_, ⟨td, ?_, ?_⟩, ?_, ?_, ?_⟩ <;>
+        simp [embedChoice, mexec, DbLog.step, hs, hcalls]
+    | false =>
+      have htd' := htd hs
+      subst htd'
+      cases hto : s.todo with
+      | nil =>
+        refine ⟨?_, ?_, ?_, ⟨[], ?_, ?_⟩, ?_, ?_, ?_⟩ <;>
+          simp [embedChoice, mexec, DbLog.step, hs, hto, hcalls]
+      | cons e rest =>
+        cases himp : e.implicitOn <;>
+        · refine ⟨?_, ?_, ?_, ⟨rest, ?_, ?_⟩, ?_, ?_, ?_⟩ <;>
+            simp [embedChoice, mexec, mstep, DbLog.step, DbLog.logStep, MSys.logCall, MSys.release, hs, hto, himp,
+                  setTask, hcalls, Nat.add_assoc]
+  | cancelIn =>
+    cases hs : s.stopped with
+    | true =>
+      refine ⟨?_, ?_, ?_, ⟨td, ?_, ?_⟩, ?_, ?_, ?_⟩ <;>
+        simp [embedChoice, mexec, DbLog.step, hs, hcalls]
+    | false =>
+      have htd' := htd hs
+      subst htd'
+      cases hto : s.todo with
+      | nil =>
+        refine ⟨?_, ?_, ?_, ⟨[], ?_, ?_⟩, ?_, ?_, ?_⟩ <;>
+          simp [embedChoice, mexec, mstep, DbLog.step, hs, hto, setTask, hcalls]
+      | cons e rest =>
+        cases himp : e.implicitOn <;>
+        · refine ⟨?_, ?_, ?_, ⟨[], ?_, ?_⟩, ?_, ?_, ?_⟩ <;>
+            simp [embedChoice, mexec, mstep, DbLog.step, DbLog.logStep, MSys.logCall, MSys.release, hs, hto, himp,
+                  setTask, hcalls, Nat.add_assoc]
+
+theorem Sim.exec {s : Sys} {m : MSys} (h : Sim s m) (sched : List Choice) :
+    Sim (exec s sched) (mexec m (embedSched s sched)) := by
+  induction sched generalizing s m with
+  | nil => exact h
+  | cons c cs ih =>
+    simp only [embedSched, mexec_append, exec, List.foldl_cons]
+    exact ih (h.step c)
+
 end Gallia.DbLog
